@@ -62,7 +62,7 @@ def main():
             props = args[1:]
         missing = baseline_ok(wt)
         print(f"[{tag}] baseline tests missing: {len(missing)} {missing[:3]}")
-        sh(f"rsync -a --exclude .git --exclude replays {VERIF}/ {vc}/")
+        sh(f"rsync -a --exclude .git --exclude replays --exclude corpus {VERIF}/ {vc}/")
         env = dict(os.environ, PDT_REPO=str(wt))
         for prop in props:
             r = subprocess.run([str(vc / "check"), prop, tier], capture_output=True, text=True, env=env, cwd=vc)
